@@ -84,6 +84,14 @@ def run(pid):
         metas, lines = [], []
         for regs, qs in G.cases(seed, t):
             metas.append((regs, qs)); lines.append(G.line(regs, qs))
+        for fl in fuzz_cases(o, ctx, "route", t, seed):
+            try:
+                rg, qq = fl.split(" ", 1)[1].split("|")
+                regs_ = [(x.split(":")[0], unhex(x.split(":")[1])) for x in rg.strip().split(";") if x.strip() and x.strip() != "-"]
+                qs_ = [(x.split(":")[0], unhex(x.split(":")[1])) for x in qq.strip().split(";") if x.strip()]
+            except Exception:
+                continue
+            metas.append((regs_, qs_)); lines.append(fl)
         impl, model = diff_run(o, ctx, lines, nontrivial=lambda c, a: ";" in c.split("|")[0] and ("=" in a or "0/" in a or "1/" in a),
                                tags=lambda c, a: "routes=%d" % min(9, 0 if c.split()[1] == "-" else c.split("|")[0].count(";") + 1))
         nq = 0
